@@ -74,7 +74,9 @@ def compile_expr(src):
 class RtRegistry:
     def __init__(self):
         self.by_key, self.by_name, self.specs, self.lemmas = {}, {}, {}, {}
+        import math
         self.globals = {"forall": forall, "exists": exists, "len": len, "min": min, "max": max, "abs": abs,
+                        "isnan": math.isnan,
                         "True": True, "False": False}
 
     def contract(self, *a, use_lemmas=(), **kw):
@@ -113,22 +115,25 @@ def resolve(contract):
     obj = importlib.import_module(modname)
     owner = None
     for part in contract.qualname.split("."):
-        if part.startswith("__") and not part.endswith("__") and owner is not None:
-            part = "_%s%s" % (owner.__name__.lstrip("_"), part)
+        if part.startswith("__") and not part.endswith("__") and isinstance(obj, type):
+            part = "_%s%s" % (obj.__name__.lstrip("_"), part)      # private name mangling
         owner, obj = obj, getattr(obj, part)
+    contract._owner = owner
     return obj
 
 
 def to_runtime(val, ty):
     if ty.kind in ("arr", "list"):
-        dt = {"int": np.int32, "real": np.float64, "bool": np.bool_}[ty.elem]
+        dt = {"int": np.int32, "real": np.float64, "bool": np.bool_, "float": np.float64}[ty.elem]
         if ty.kind == "list":
-            return list(val)
+            return copy.deepcopy(val)
         return np.array(val, dtype=dt)
     if ty.kind == "int":
         return int(val)
-    if ty.kind == "real":
+    if ty.kind in ("real", "float"):
         return float(val)
+    if ty.kind == "obj":
+        return val
     return bool(val)
 
 
@@ -159,6 +164,11 @@ def check_once(reg, c, raw_args, variants=("compiled", "py_func")):
         env = {}
         for p, ty in list(c.params.items()) + list(c.ghost.items()):
             env[p] = to_runtime(raw_args[p], ty)
+            if ty.kind == "obj" and env[p] is None and isinstance(getattr(c, "_owner", None), type):
+                env[p] = c._owner.__new__(c._owner)         # a blank instance for methods / constructors
+                for key, fty in (c.fields or {}).items():
+                    if key.startswith(p + "."):
+                        object.__setattr__(env[p], key.split(".", 1)[1], to_runtime(raw_args[key], fty))
         snap = {id(v): copy.deepcopy(v) for v in env.values() if isinstance(v, (np.ndarray, list))}
         by_name_old = {p: snap[id(v)] for p, v in env.items() if id(v) in snap}
 
